@@ -496,6 +496,7 @@ class SETITEM_ADDITIONAL:
     """item assignment under a key that is NOT a declared field: follows the addition policy -- ignored
     (None), rejected (False), stored raw (True), or stored CONVERTED by the declared addition type:
     `no public operation can place unparsed data into the instance`."""
+    replay = "schema_setitem_additional"
     cases = _ADD_CASES
     setup = staticmethod(_additional_setup)
     requires = dict(_PRE, unknown_key="not is_field_name(self.__parser__, alias)")
@@ -786,6 +787,13 @@ def _cp_cases():
             field=PF(no_output=BOOL, mode=NONE, output_type=Cls(name="otype"), output_field=NONE, dependencies=NONE,
                      property=Rec("PropertyObj")),
             context=Rec("RuntimeContext", options=Rec("Options", mode=NONE, invalid_values=Str(pol), collect_errors=FALSE, max_errors=NONE)))
+    # no_output given as a predicate of the computed value (`no_output=lambda v: v is None`): the value decides whether the
+    # property is published or hidden -- the branch that REMOVES a previously published value
+    out["throw,no_output-predicate"] = dict(
+        self=_schema(),
+        field=PF(no_output=Obj(not_none=True, name="callable"), mode=NONE, output_type=Cls(name="otype"), output_field=NONE, dependencies=NONE,
+                 property=Rec("PropertyObj")),
+        context=Rec("RuntimeContext", options=Rec("Options", mode=NONE, invalid_values=Str("throw"), collect_errors=FALSE, max_errors=NONE)))
     return out
 
 
@@ -795,6 +803,16 @@ _CV_O = "converted(field.output_type, %s, context)" % _G
 
 
 def _cp_post(pol):
+    if pol == "throw,no_output-predicate":
+        hide = "truthy(call_value(field.no_output, result))"
+        return {
+            "other_keys_untouched": "others_untouched(self.__data__, old(snap(self.__data__)), field.name)",
+            "other_attributes_untouched": "others_untouched(self.__dict__, old(snap(self.__dict__)), field.attname)",
+            "a_hidden_value_is_removed_from_both_views":
+                "implies(result is not None and %s, not has_key(self.__data__, field.name) and not has_key(self.__dict__, field.attname))" % hide,
+            "a_published_value_is_the_parsed_one":
+                "implies(result is not None and not %s, value_at(self.__data__, field.name, result) and result is %s)" % (hide, _CV_O),
+        }
     stored = {"throw": _CV_O, "exclude": _CV_O, "preserve": "(%s if %s else %s)" % (_CV_O, _ACC_O, _G)}[pol]
     d = {
         "other_keys_untouched": "others_untouched(self.__data__, old(snap(self.__data__)), field.name)",
@@ -836,6 +854,18 @@ def _cp_setup(ex, frame):
     o = frame.env["context"].fields["options"]
     ex.assume(g != u)
     ex.assume(converted_t(f.fields["output_type"].t, g, o.fields["no_explicit_cast"].t, o.fields["no_data_loss"].t) != u)
+    no = f.fields["no_output"]
+    if isinstance(no, VObj):
+        # a predicate: callable, truthy, not one of the scalar settings; it returns a bool for the values it is given
+        ex.assume(sym.callable_f(no.t))
+        ex.assume(sym.truthy_f(no.t))
+        for py in (bool, str, list, set, tuple, int):
+            ex.assume(z3.Not(sym.sub(sym.ty(no.t), ex.world.classes.of_py(py).t)))
+        cv = converted_t(f.fields["output_type"].t, g, o.fields["no_explicit_cast"].t, o.fields["no_data_loss"].t)
+        for arg in (cv, g):
+            r = call1(no.t, arg)
+            ex.assume(z3.And(sym.ty(r) == ex.world.classes.of_py(bool).t, r == sym.box_bool(sym.unbox_bool(r)),
+                             sym.truthy_f(r) == sym.unbox_bool(r), r != sym.NONE))
 
 
 @contract(SC, "Schema.__coerce_property__", props=["C07", "C10"], which="body")
@@ -848,9 +878,9 @@ class COERCE_PROPERTY_BODY:
     calls = "pure"
     setup = staticmethod(_cp_setup)
     requires = _PRE
-    returns_by_case = {pol: _cp_post(pol) for pol in ("throw", "exclude", "preserve")}
+    returns_by_case = {pol: _cp_post(pol) for pol in _cp_cases()}
     raises = {"Exception": {"state_unchanged": _UNCHANGED}}
-    only_raises = ["ParseError"]
+    only_raises = ["Exception"]
     modifies = ["context.errors", "self.__data__", "self.__dict__"]
     assumes = ["the getter is a deterministic partial function of the instance (call model `pure`); it does not itself mutate the instance",
                "warnings.warn does not raise (dropped call)"]
